@@ -181,14 +181,21 @@ struct AsgIter {
     }
 };
 
+static std::vector<int> levelSizes(const ForestInfo &fi)
+{
+    std::vector<int> sz;
+    for (int k=1; k<=int(fi.F->getNumVariables()); k++) sz.push_back(fi.F->getLevelSize(k));
+    return sz;
+}
+
 static std::string tableOf(const dd_edge &e, const ForestInfo &fi)
 {
-    const DomainInfo &di = DOMS[fi.dom];
+    const std::vector<int> lsz = levelSizes(fi);
     minterm m(fi.F);
     std::string s;
     rangeval v;
     bool first = true;
-    for (AsgIter it(di.sizes, fi.rel); !it.done; it.next()) {
+    for (AsgIter it(lsz, fi.rel); !it.done; it.next()) {
         it.fill(m);
         e.evaluate(m, v);
         if (!first) s += ",";
@@ -652,6 +659,112 @@ static void cmd_getelem(const std::vector<std::string> &tk)
 }
 
 // ---------------------------------------------------------------------
+// C14: exchange files
+//   write <id> F A B ...        roots A B ... of forest F to file <id>
+//   read  <id> F N1 N2 ...      read file <id> into forest F, roots named N1..
+//   readnew <id> Fnew D N1 ...  forest created from the file over domain D
+// ---------------------------------------------------------------------
+
+static std::string SCRIPT_PATH;
+
+static std::string xfile(const std::string &id)
+{
+    return SCRIPT_PATH + ".x" + id;
+}
+
+static void cmd_write(const std::vector<std::string> &tk)
+{
+    ForestInfo &fi = forestOf(tk[2]);
+    FILE* f = fopen(xfile(tk[1]).c_str(), "w");
+    if (!f) throw Bad("cannot write exchange file");
+    {
+        FILE_output out(f);
+        mdd_writer W(out, fi.F);
+        for (size_t i=3; i<tk.size(); i++) W.writeRootEdge(edgeOf(tk[i]));
+        W.finish();
+    }
+    fclose(f);
+    emit("write ok");
+}
+
+static void registerForest(const std::string &name, const std::string &dom, forest* F)
+{
+    ForestInfo fi;
+    fi.F = F;
+    fi.dom = dom;
+    fi.rel = F->isForRelations();
+    fi.rt = F->getRangeType();
+    fi.el = F->getEdgeLabeling();
+    fi.rr = F->getReductionRule();
+    fi.alive = true;
+    fi.fid = F->FID();
+    FORS[name] = fi;
+}
+
+static void cmd_read(const std::vector<std::string> &tk, bool newforest)
+{
+    FILE* f = fopen(xfile(tk[1]).c_str(), "r");
+    if (!f) throw Bad("cannot read exchange file");
+    size_t first = newforest ? 4 : 3;
+    try {
+        FILE_input in(f);
+        mdd_reader* R;
+        if (newforest) {
+            auto dit = DOMS.find(tk[3]);
+            if (dit == DOMS.end()) throw Bad("unknown domain");
+            R = new mdd_reader(in, dit->second.D);
+            registerForest(tk[2], tk[3], R->getForest());
+        } else {
+            R = new mdd_reader(in, forestOf(tk[2]).F);
+        }
+        std::string s = "read roots=" + std::to_string(R->numRoots());
+        emit(s);
+        for (size_t i=first; i<tk.size(); i++) {
+            dd_edge &e = freshEdge(tk[i], tk[2]);
+            R->readRootEdge(e);
+        }
+        delete R;
+    }
+    catch (...) {
+        fclose(f);
+        throw;
+    }
+    fclose(f);
+    for (size_t i=first; i<tk.size(); i++) {
+        // one observation per line is the rule; extra roots are shown by
+        // explicit "show" commands in the script
+    }
+}
+
+// ---------------------------------------------------------------------
+// C20: saturation over a partitioned (pre-generated) relation
+// satpre R F events|levels only|sub|suball|mono S E1 E2 ...
+// ---------------------------------------------------------------------
+
+static void cmd_satpre(const std::vector<std::string> &tk)
+{
+    if (tk.size() < 7) throw Bad("satpre syntax");
+    dd_edge &init = edgeOf(tk[5]);
+    forest* inF = forestOf(EDGEFOR[tk[5]]).F;
+    forest* mxd = forestOf(EDGEFOR[tk[6]]).F;
+    unsigned n = unsigned(tk.size() - 6);
+    pregen_relation* rel = (tk[3] == "events") ? new pregen_relation(mxd, n)
+                                               : new pregen_relation(mxd);
+    for (size_t i=6; i<tk.size(); i++) rel->addToRelation(edgeOf(tk[i]));
+    pregen_relation::splittingOption so =
+          tk[4] == "only" ? pregen_relation::SplitOnly
+        : tk[4] == "sub" ? pregen_relation::SplitSubtract
+        : tk[4] == "suball" ? pregen_relation::SplitSubtractAll
+        : pregen_relation::MonolithicSplit;
+    rel->finalize(so);
+    dd_edge &r = freshEdge(tk[1], tk[2]);
+    saturation_operation* sat = SATURATION_FORWARD(inF, rel, forestOf(tk[2]).F);
+    if (!sat) throw error(error::INVALID_OPERATION, __FILE__, __LINE__);
+    sat->compute(init, r);
+    showEdge(tk[1]);
+}
+
+// ---------------------------------------------------------------------
 // node-level audit of a forest (C02 / C06 / C07)
 // prints, for every active node handle: level, children, incoming count,
 // cache count, hash agreement, singleton info; plus roots and totals.
@@ -947,6 +1060,25 @@ static void run(const std::vector<std::string> &tk)
         else for (auto &p : FORS) if (p.second.alive) p.second.F->removeAllComputeTableEntries();
     }
     else if (c == "audit") cmd_audit(tk);
+    else if (c == "satpre") cmd_satpre(tk);
+    else if (c == "write") cmd_write(tk);
+    else if (c == "read") cmd_read(tk, false);
+    else if (c == "readnew") cmd_read(tk, true);
+    else if (c == "reorder") {
+        // reorder F v1 .. vK : variable v_k goes to level k
+        ForestInfo &fi = forestOf(tk[1]);
+        std::vector<int> order(1, 0);
+        for (size_t i=2; i<tk.size(); i++) order.push_back(atoi(tk[i].c_str()));
+        if (order.size() != fi.F->getNumVariables()+1) throw Bad("reorder: wrong number of variables");
+        fi.F->reorderVariables(order.data());
+        std::string s = "reorder";
+        for (int k=1; k<=int(fi.F->getNumVariables()); k++) {
+            char buf[32];
+            snprintf(buf, 32, " %d", fi.F->getVarByLevel(k));
+            s += buf;
+        }
+        emit(s);
+    }
     else if (c == "term") cmd_term(tk);
     else if (c == "mm") cmd_mm(tk);
     else throw Bad("unknown command " + c);
@@ -955,6 +1087,7 @@ static void run(const std::vector<std::string> &tk)
 int main(int argc, char** argv)
 {
     if (argc < 2) { fprintf(stderr, "usage: mdriver script\n"); return 2; }
+    SCRIPT_PATH = argv[1];
     std::ifstream in(argv[1]);
     if (!in) { fprintf(stderr, "cannot open %s\n", argv[1]); return 2; }
     std::string line;
